@@ -561,7 +561,7 @@ func TestPrograms(t *testing.T) {
 }
 
 func TestTargeted(t *testing.T) {
-	vt.Run(t, cTarget, vt.N(4000, 100000), genTargeted, runWith(cTarget))
+	vt.Run(t, cTarget, vt.N(2500, 100000), genTargeted, runWith(cTarget))
 }
 
 func float64frombits(b uint64) float64 { return math.Float64frombits(b) }
